@@ -4,7 +4,16 @@ set -e
 cd "$(dirname "$0")"
 export GOFLAGS=-mod=mod GOPROXY=off GOSUMDB=off GOTOOLCHAIN=local
 mkdir -p .build out evidence
-( cd coq && coq_makefile -f _CoqProject -o Makefile >/dev/null && timeout 3000 make -j16 )
-cp /repo/go.sum harness/go.sum
-( cd harness && go build -tags verif -o ../.build/harness . )
-echo setup ok
+python3 - <<'PY'
+import sys, os
+sys.path.insert(0, "driver")
+import core
+ok, out, failing = core.coq_build()
+print(out[-3000:])
+if not ok:
+    print("coq build failed:", failing); sys.exit(1)
+binp, out = core.harness_build()
+if binp is None:
+    print(out); sys.exit(1)
+print("setup ok")
+PY
